@@ -10,6 +10,7 @@ __author__ = "Christian Donner"
 
 from jax.random import PRNGKey
 import jax
+import numpy as np
 from jax import numpy as jnp
 
 # from .
@@ -178,8 +179,9 @@ class GaussianPDF(measure.GaussianMeasure):
         """
         from . import conditional
 
-        dim_xy = jnp.arange(self.D, dtype=jnp.int32)
-        dim_x = jnp.setxor1d(dim_xy, dim_y)
+        # The complement has a data dependent size: compute it on the (static) indices
+        # with NumPy so that condition_on can be traced (jit, scan).
+        dim_x = np.setxor1d(np.arange(self.D), np.asarray(dim_y))
         # dim_x = dim_xy[jnp.logical_not(jnp.isin(dim_xy, dim_y))]
         Lambda_x = self.Lambda[:, dim_x][:, :, dim_x]
         Sigma_x, ln_det_Lambda_x = invert_matrix(Lambda_x)
